@@ -165,6 +165,96 @@ def ctx_class(c):
             bool(getattr(c, 'enable_neg_zero', True)), kind(getattr(c, 'nan_value', None)), kind(iv), at_bound)
 
 
+# ---------------------------------------------------------------------------------------------------------------
+# elim_round on arithmetic: a rounding proved to be an identity is removed; the result must still be the
+# correctly rounded operation (Arith!OpVerdict) on every operand tuple of the pinned argument format
+
+ARITH_SRC = {
+    'neg': ('def er_neg(x: fp.Real):\n    return -x', 1),
+    'fabs': ('def er_fabs(x: fp.Real):\n    return abs(x)', 1),
+    'add': ('def er_add(x: fp.Real, y: fp.Real):\n    return x + y', 2),
+    'sub': ('def er_sub(x: fp.Real, y: fp.Real):\n    return x - y', 2),
+    'mul': ('def er_mul(x: fp.Real, y: fp.Real):\n    return x * y', 2),
+    'fma': ('def er_fma(x: fp.Real, y: fp.Real):\n    return fp.fma(x, y, x)', 2),
+}
+
+
+def arith_scopes(tier):
+    RM = fp.RM
+    out = [fp.FixedContext(True, 0, 8), fp.FixedContext(True, -1, 8), fp.FixedContext(False, 0, 6), fp.IEEEContext(4, 9), fp.IEEEContext(3, 7, RM.RTZ),
+           fp.MPFixedContext(-2), fp.MPFloatContext(6), fp.SMFixedContext(0, 8), fp.IEEEContext(4, 9, RM.RTN), fp.MPFixedContext(-2, RM.RTN)]
+    return out if tier == 'thorough' else out[::2] + [out[-1]]
+
+
+def arith_argctx():
+    return [fp.FixedContext(True, 0, 4), fp.FixedContext(False, 0, 3), fp.FixedContext(True, -1, 4), fp.IEEEContext(2, 4), fp.SMFixedContext(0, 3)]
+
+
+def record_arith(job):
+    from fpy2.types import RealType
+    from fpy2.number import Float, RealFloat
+    from fractions import Fraction
+    import itertools
+    tier, si = job
+    scope = arith_scopes(tier)[si]
+    S = fp.strategies
+    work = tempfile.mkdtemp(prefix='verif-c10a-')
+    recs, stats = [], Counter()
+    try:
+        try:
+            cj = ctx_json(scope)
+        except OutOfDomain:
+            return [], stats
+        for op, (src, arity) in ARITH_SRC.items():
+            mod = gen_prog.load_module(gen_prog.HEADER + '@fp.fpy\n' + src + '\n', work, f'c10a_{si}_{op}')
+            f = getattr(mod, 'er_' + op)
+            for actx in arith_argctx():
+                fmt = actx.format()
+                vals = []
+                for k in range(-64, 65):
+                    q = Fraction(k, 4)
+                    v = Float(x=RealFloat(s=q < 0, c=abs(q.numerator), exp=-(q.denominator.bit_length() - 1)))
+                    if fmt.representable_in(v):
+                        vals.append(v)
+                for v in (Float(s=True, c=0, exp=0), Float(isinf=True), Float(isinf=True, s=True), Float(isnan=True)):
+                    if fmt.representable_in(v):
+                        vals.append(v)
+                try:
+                    pinned = S.monomorphize(f, scope, [RealType(actx)] * arity)
+                    g = S.elim_round(pinned)
+                except Exception as e:      # noqa: BLE001  -- a refusal
+                    stats[f'elim_round-refused:{type(e).__name__}'] += 1
+                    continue
+                changed = g.format() != pinned.format()
+                stats['elim_round-changed' if changed else 'elim_round-left-alone'] += 1
+                if not changed:
+                    continue
+                try:
+                    g2 = S.simplify(g)
+                except Exception:       # noqa: BLE001
+                    g2 = g
+                tuples = list(itertools.product(vals, repeat=arity))
+                if len(tuples) > 400:
+                    tuples = random.Random(si).sample(tuples, 400)
+                for args in tuples:
+                    opargs = list(args) + ([args[0]] if op == 'fma' else [])
+                    try:
+                        aj = [num_json(a) for a in opargs]
+                    except OutOfDomain:
+                        continue
+                    for label, h in (('elim_round', g), ('elim_round>simplify', g2)):
+                        try:
+                            out = {'val': num_json(h(*args))}
+                        except OutOfDomain:
+                            continue
+                        except Exception as e:      # noqa: BLE001
+                            out = {'err': type(e).__name__}
+                        recs.append({'op': op, 'ctx': cj, 'args': aj, 'g': 4, 'out': out, 'label': label, 'argfmt': str(actx), 'xsrc': h.format()[:600]})
+    finally:
+        shutil.rmtree(work, ignore_errors=True)
+    return recs, stats
+
+
 def run(tier: str) -> int:
     rep = core.Report('C10', tier)
     rng = random.Random(core.seed())
@@ -193,7 +283,23 @@ def run(tier: str) -> int:
     for mm in out.mismatches:
         r = by[mm[0]]
         rep.mismatch({'clause': mm[1], 'fam': r['ctx']['fam'], 'chain': r['label'].split('>')[-1], 'ov': r['ctx'].get('ov', '')}, r)
-    rep.cov.update({'contexts': len(ctxs), 'evaluations': len(recs), 'traces_validated_against_impl': len(recs),
+    # ---- elim_round on arithmetic with pinned argument formats
+    ares = core.pool_map(record_arith, [(tier, i) for i in range(len(arith_scopes(tier)))], chunksize=1)
+    arecs = []
+    for r, st in ares:
+        arecs += r
+        stats.update(st)
+    for i, r in enumerate(arecs):
+        r['tid'] = i
+    if arecs:
+        aout = core.validate_trace('ArithTrace', [{k: v for k, v in r.items() if k not in ('label', 'argfmt', 'xsrc')} for r in arecs])
+        rep.add_tlc(aout.generated, aout.distinct)
+        aby = {r['tid']: r for r in arecs}
+        for mm in aout.mismatches:
+            r = aby[mm[0]]
+            rep.mismatch({'clause': 'elim_round-' + mm[1], 'op': r['op']}, r)
+    rep.cov['elim_round_arithmetic_evaluations'] = len(arecs)
+    rep.cov.update({'contexts': len(ctxs), 'evaluations': len(recs) + len(arecs), 'traces_validated_against_impl': len(recs) + len(arecs),
                     'distinct_nontrivial': len({(repr(r['ctx']), r['label']) for r in recs}),
                     'refusals_and_duplicates': dict(stats),
                     'rule': 'contexts of every family (stratified by class of context: per class a seeded 1/40 (quick) or 1/4 (thorough) sample, at least 3 / 8, of the C01 enumeration) x every distinct '
